@@ -220,6 +220,8 @@ func (e *engine) handlerFor(instNo int) stun.Handler {
 			h.Raw = append([]byte(nil), ev.Message.Raw...)
 			if ev.Message.TransactionID != ev.TransactionID {
 				h.Kind = "other:event.Message.TransactionID differs from event.TransactionID"
+			} else if why := decodedMatchesRaw(ev.Message); why != "" {
+				h.Kind = "other:the Message handed to the handler is not the decode of its own bytes: " + why
 			}
 		}
 		e.mu.Lock()
@@ -241,6 +243,28 @@ func (e *engine) handlerFor(instNo int) stun.Handler {
 			e.mu.Unlock()
 		}
 	}
+}
+
+// decodedMatchesRaw compares the struct of a message with an independent parse of its raw bytes
+// (called inside the callback, while the reader's Message is still valid).
+func decodedMatchesRaw(m *stun.Message) string {
+	r, ok := ref.Parse(m.Raw)
+	if !ok {
+		return "raw bytes are not a well-formed message"
+	}
+	if uint16(m.Type.Method) != r.Method || uint8(m.Type.Class) != r.Class || int(m.Length) != r.Length || m.TransactionID != r.TID {
+		return "header fields differ"
+	}
+	if len(m.Attributes) != len(r.Attrs) {
+		return fmt.Sprintf("%d attributes in the struct, %d on the wire", len(m.Attributes), len(r.Attrs))
+	}
+	for i, a := range m.Attributes {
+		if uint16(a.Type) != r.Attrs[i].Type || int(a.Length) != r.Attrs[i].Len || !bytes.Equal(a.Value, r.Attrs[i].Value) {
+			return fmt.Sprintf("attribute %d differs", i)
+		}
+	}
+
+	return ""
 }
 
 func startClass(err error) string {
@@ -357,6 +381,9 @@ func (e *engine) compare(step string, ex *expect) error {
 		}
 	}
 	if err := e.checkNested(step); err != nil {
+		return err
+	}
+	if err := e.checkDoPending(step); err != nil {
 		return err
 	}
 	wr := e.takeWrites()
@@ -812,7 +839,30 @@ func (e *engine) observeTick(step string, target time.Duration, due map[int]*mtx
 		}
 	}
 
-	return e.checkNested(step)
+	if err := e.checkNested(step); err != nil {
+		return err
+	}
+
+	return e.checkDoPending(step)
+}
+
+// checkDoPending: a Do whose transaction is still in flight must still be blocked.
+func (e *engine) checkDoPending(step string) error {
+	for _, t := range e.tx {
+		in := e.insts[t.inst]
+		if !in.isDo || in.doDone == nil {
+			continue
+		}
+		select {
+		case err := <-in.doDone:
+			in.doDone <- err
+
+			return fmt.Errorf("%s: Do of transaction %d returned (%v) although its callback has not been invoked yet", step, t.inst, err)
+		default:
+		}
+	}
+
+	return nil
 }
 
 // checkNested compares the results of Starts issued from inside handlers with the model.
